@@ -89,12 +89,19 @@ def race_cases(rng, tier):
     for cs in (0, 13):
         A = ''.join('a' if i == cs else 'n' for i in range(30))
         base = 'pre: new 20 %sh- | @20 hit %d | new 1 %sh%d' % (N, cs, A, LEVEL_OF(cs))
-        for s in preemption_schedules(2, [7, 4], 2 if tier == 'quick' else 3):
+        for s in preemption_schedules(2, [8, 4], 2 if tier == 'quick' else 3):
             cases.append(base + ' ;; ' + s)
         base3 = 'pre: new 20 %sh- | hit %d | new 1 %sh- | hit %d , rebuild' % (N, cs, A, cs)
         if tier != 'quick':
-            for s in preemption_schedules(3, [7, 4, 6], 2):
+            for s in preemption_schedules(3, [8, 4, 6], 2):
                 cases.append(base3 + ' ;; ' + s)
+    # two threads hit two DIFFERENT callsites for the first time (both inside `register` under the shared read lock, both pushing
+    # onto the lock-free callsite list: yield point between loading the head and the compare-exchange), then a collector that
+    # wants both is created: every schedule of the two pushes with at most 2 preemptions
+    both = ''.join('a' if i in (0, 13) else 'n' for i in range(30))
+    base2 = 'pre: new 20 %sh- | hit 0 | hit 13 | new 1 %sh-' % (N, both)
+    for s in preemption_schedules(2, [8, 8], 2 if tier == 'quick' else 3):
+        cases.append(base2 + ' ;; ' + s + '2222')
     return cases
 
 def global_cases(rng, tier, stress):
@@ -142,7 +149,7 @@ def extra(tier, seed, rng, res, broken):
         if len(res.samples) < 12 and res.evaluations % 97 == 0:
             res.samples.append({'stream': 'race', 'case': c[:300], 'impl': o[:400], 'model': v})
         if v != 'ok':
-            (hard if ('stranded' in v or 'DEADLOCK' in v or 'PANIC' in v or 'wrong-delivery' in v or 'global-default' in v or 'set_global_default' in v) else soft).append(('race', c, o, 'judge ' + v))
+            (hard if ('stranded' in v or 'DEADLOCK' in v or 'PANIC' in v or 'wrong-delivery' in v or 'lost-delivery' in v or 'global-default' in v or 'set_global_default' in v) else soft).append(('race', c, o, 'judge ' + v))
     # a run on which the property itself fails (stranded collector, deadlock, panic, wrong delivery) is the better replay;
     # runs that merely leave the proved transition system are reported when there is none
     res.spec_failures.extend(hard if hard else soft)
